@@ -80,8 +80,9 @@ CLAIMED = {
  "C10": ("proof", "Lean 4 theorems over the regenerated instances of cyecca.util: LDL^T and UDU^T (n = 2, 3) reconstruct the symmetric input for "
          "EVERY matrix with non-zero pivots, unit-triangular / diagonal shapes are structural; RK4 is exact for cubic-in-time derivatives, is the "
          "degree-4 Taylor polynomial on linear/affine systems (order 4, consistency); sqrt_covariance_predict (n = 2) is lower triangular and "
-         "satisfies W'W^T + WW'^T = FP + PF^T + Q; sqrt_correct (n = m = 1, CasADi's symbolic QR inlined) gives Ss Ss^T = HPH^T + R, "
-         "K S = P H^T and W+W+^T = (I - KH)P. Larger sizes (n <= 7, m <= 3), P+ <= P and the h^5 local error: numeric search only (named in evidence).",
+         "satisfies W'W^T + WW'^T = FP + PF^T + Q; sqrt_correct gives Ss Ss^T = HPH^T + R, K S = P H^T, W+W+^T = (I - KH)P and P - W+W+^T >= 0 "
+         "(n = m = 1 with CasADi's symbolic QR inlined; n = 3, m = 2 on the QR-abstracted real routine under the contract Q^T Q = 1, Q R = A, from the "
+         "generic theorem Lib/SqrtFilter valid for all dimensions). Other sizes (n <= 7, m <= 3) and the h^5 local error: numeric search only.",
          "DESIGN.md §2 C10", TECH_T),
  "C11": ("proof", "Lean 4 theorems over the regenerated estimator programs: a rejected accelerometer / magnetometer correction (error code != 0) "
          "returns ALL six state components and every lower-triangle entry of the covariance factor unchanged (over the reals), the error codes lie "
